@@ -47,7 +47,7 @@ theorem analyze_nil {E : Env} {r : Bool} {ns : List Node} (h : analyze E r ns = 
 
 /-- what `afterTag` returning no item tells about the units -/
 theorem afterTag_nil {E : Env} {an : An} {sim : Bool} {line : Nat} {c : Cond} {name : String}
-    (h : afterTag E an sim line c name = .ok []) :
+    (h : afterTag E true an sim line c name = .ok []) :
     ∃ tag, tagsGet E name = .ok tag ∧
       ((tag.unit = none ∧ c.tagUnit = none) ∨
        (∃ tu u, tag.unit = some tu ∧ c.tagUnit = some u ∧ areComparable E.units (some tu) (some u) = .ok true)) := by
@@ -74,10 +74,12 @@ theorem afterTag_nil {E : Env} {an : An} {sim : Bool} {line : Nat} {c : Cond} {n
           | none =>
             simp only [htu, hcu, Option.isNone_some, Option.isSome_none, Bool.and_false, Bool.false_eq_true, if_false,
               Option.isSome_some, Option.isNone_none, Bool.and_true, Bool.true_and] at h
-            split at h
-            · cases h
-            · cases h
-            · split at h
+            cases hs : suggestedUnits E true (some tu) with
+            | error e => rw [hs] at h; cases h
+            | ok valid =>
+              rw [hs] at h
+              simp only at h
+              split at h
               · cases h
               · simp at h
           | some u =>
@@ -85,10 +87,12 @@ theorem afterTag_nil {E : Env} {an : An} {sim : Bool} {line : Nat} {c : Cond} {n
             refine ⟨tu, u, rfl, rfl, ?_⟩
             simp only [htu, hcu, Option.isNone_some, Option.isSome_some, Bool.false_and, Bool.false_eq_true, if_false,
               Option.isNone_some, Bool.and_false, Bool.true_and, if_true] at h
-            split at h
-            · cases h
-            · cases h
-            · cases hcmp : areComparable E.units (some tu) (some u) with
+            cases hs : suggestedUnits E true (some tu) with
+            | error e => rw [hs] at h; cases h
+            | ok valid =>
+              rw [hs] at h
+              simp only at h
+              cases hcmp : areComparable E.units (some tu) (some u) with
               | error e => rw [hcmp] at h; cases e <;> simp at h
               | ok b =>
                 cases b with
@@ -406,15 +410,20 @@ theorem interp_ok {G : Engine} (hN : NamesOk G) (hO : OraclesOk G) {n : ENode} (
     (hcl : cmdItems (analyzerEnv G (publish G true)) (toANode G (publish G true) n) = .ok []) :
     engineFails G true n = none := by
   simp only [parseAgree, hk, Bool.and_eq_true, beq_iff_eq] at hp
-  obtain ⟨⟨⟨hkind, hkw⟩, hnames⟩, hspec⟩ := hp
+  obtain ⟨⟨⟨⟨hkind, hkw⟩, hnames⟩, hspec⟩, hstrip⟩ := hp
   obtain ⟨_, hsearch⟩ := system_clean hN hkind hkw hcl
   simp only [interpNames, List.contains_cons, List.contains_nil, Bool.or_false, Bool.or_eq_true, beq_iff_eq] at hnames
   simp only [engineFails, hk]
   rcases hnames with h | h | h | h
-  · -- Base
+  · -- Base: the published pattern is `baseRegex units`; `re.search` on it is `acceptBase`; the argument is stripped
     have hs := hsearch (baseRegex G.baseUnits) (by simp [h])
-    have := hO.baseSound _ hs
-    have hm : n.a.arguments ∈ G.baseUnits := by simpa using this
+    rw [hO.baseExact] at hs
+    have hne : G.baseUnits.isEmpty = false := by
+      cases hb : G.baseUnits with
+      | nil => exact absurd hb hO.baseUnitsNonempty
+      | cons _ _ => rfl
+    simp only [acceptBase, hne, Bool.false_eq_true, if_false, hstrip] at hs
+    have hm : n.a.arguments ∈ G.baseUnits := by simpa using hs
     simp [h, hm]
   · simp [h]
   · -- Run counter
